@@ -1601,8 +1601,13 @@ func (h *history) filterCheck() {
 	}
 	var rows []uint32
 	var count int
-	var agg aggRes
+	var agg, agg2 aggRes
 	var rangeErr string
+	countAfter, rowsAfter := -1, 0
+	var aggCol2 *ColSpec
+	if len(numCols) > 1 {
+		aggCol2 = &numCols[h.rng.Intn(len(numCols))]
+	}
 	h.wd.P.Query(func(txn *column.Txn) error {
 		applyChain(txn, m, chain)
 		count = txn.Count()
@@ -1619,6 +1624,13 @@ func (h *history) filterCheck() {
 		})
 		if aggCol != nil {
 			agg = nums[aggCol.Kind].agg(txn, aggCol.Name)
+			// the aggregates must leave the selection alone: Count, Range and an aggregate over
+			// another column on the same transaction afterwards
+			countAfter = txn.Count()
+			txn.Range(func(idx uint32) { rowsAfter++ })
+			if aggCol2 != nil {
+				agg2 = nums[aggCol2.Kind].agg(txn, aggCol2.Name)
+			}
 		}
 		return nil
 	})
@@ -1688,5 +1700,35 @@ func (h *history) filterCheck() {
 	if !agg.MinOK || !agg.MaxOK || !valEqual(k, Val{B: agg.Min}, Val{B: mn}) || !valEqual(k, Val{B: agg.Max}, Val{B: mx}) {
 		h.violate("aggregate", fmt.Sprintf("%s%s: Min=(%s,%v) Max=(%s,%v), selected values have min %s max %s", desc, aggCol.Name, show(agg.Min), agg.MinOK, show(agg.Max), agg.MaxOK, show(mn), show(mx)), "")
 		return
+	}
+	h.afterAggregates(desc, aggCol, aggCol2, agg2, countAfter, rowsAfter, wantRows, st)
+}
+
+// afterAggregates: Sum/Avg/Min/Max must not change the selection of the transaction.
+func (h *history) afterAggregates(desc string, aggCol, aggCol2 *ColSpec, agg2 aggRes, countAfter, rowsAfter int, wantRows []uint32, st *State) {
+	if countAfter >= 0 && (countAfter != len(wantRows) || rowsAfter != len(wantRows)) {
+		h.violate("aggregate", fmt.Sprintf("%safter Sum/Avg/Min/Max over %s the same transaction has Count()=%d and Range visits %d rows, the selection holds %d rows", desc, aggCol.Name, countAfter, rowsAfter, len(wantRows)), "")
+		return
+	}
+	if aggCol2 == nil {
+		return
+	}
+	var vals []uint64
+	for _, r := range wantRows {
+		if v, ok := st.Cells[aggCol2.Name][r]; ok {
+			vals = append(vals, v.B)
+		}
+	}
+	k := aggCol2.Kind
+	if len(vals) == 0 {
+		if agg2.MinOK || agg2.MaxOK || agg2.Sum != 0 {
+			h.violate("aggregate", fmt.Sprintf("%ssecond aggregate over %s (after %s) on the same transaction: no selected row holds a value but Sum=%s Min ok=%v", desc, aggCol2.Name, aggCol.Name, Val{B: agg2.Sum}.show(k), agg2.MinOK), "")
+		}
+		return
+	}
+	sum, _, mn, mx := nums[k].sumBits(vals)
+	if !valEqual(k, Val{B: agg2.Sum}, Val{B: sum}) || !agg2.MinOK || !agg2.MaxOK || !valEqual(k, Val{B: agg2.Min}, Val{B: mn}) || !valEqual(k, Val{B: agg2.Max}, Val{B: mx}) {
+		h.violate("aggregate", fmt.Sprintf("%ssecond aggregate over %s (after %s) on the same transaction: Sum=%s Min=%s Max=%s, the %d selected values give Sum=%s Min=%s Max=%s", desc, aggCol2.Name, aggCol.Name,
+			Val{B: agg2.Sum}.show(k), Val{B: agg2.Min}.show(k), Val{B: agg2.Max}.show(k), len(vals), Val{B: sum}.show(k), Val{B: mn}.show(k), Val{B: mx}.show(k)), "")
 	}
 }
